@@ -186,9 +186,11 @@ ConnackFail(k, code) ==
 \* The session outlives the connection iff its expiry interval is not 0 and it was not terminated; newexp >= 0 is the
 \* interval a v5 DISCONNECT carried; suppress: the DISCONNECT removed the will (reason code 0x00; any v3 DISCONNECT).
 \* Once the connection is over nothing read on it is part of the trace any more.
-ConnEnd(k, newexp, suppress, ms) ==
+ConnEnd(k, newexp, suppress0, ms) ==
   LET c == conn[k].cid
-      e0 == IF newexp >= 0 /\ conn[k].ver = 5 THEN newexp ELSE conn[k].expiry
+      void == conn[k].ver = 5 /\ newexp > 0 /\ conn[k].expiry = 0      \* Protocol Error, see HookUnregister
+      suppress == suppress0 /\ ~void
+      e0 == IF newexp >= 0 /\ ~void /\ conn[k].ver = 5 THEN newexp ELSE conn[k].expiry
       e == IF conn[k].force THEN 0 ELSE e0
       keep == e > 0 IN
   /\ k \in DOMAIN conn
@@ -269,9 +271,12 @@ HookUnregister(c, addr, ms) ==
   LET k == KOf(addr)
       srv == conn[k].st \notin {"closing", "down"}      \* the broker ended it: the client had not
       b == conn[k].bye
-      e0 == IF b.has /\ b.exp >= 0 /\ conn[k].ver = 5 THEN b.exp ELSE conn[k].expiry
+      \* a DISCONNECT that sets a non-zero Session Expiry Interval on a session whose interval is 0 is a Protocol Error
+      \* (MQTT 5 3.14.2.2.2): it is not a DISCONNECT that ends the connection normally - the will stays, the interval too
+      void == b.has /\ conn[k].ver = 5 /\ b.exp > 0 /\ conn[k].expiry = 0
+      e0 == IF b.has /\ ~void /\ b.exp >= 0 /\ conn[k].ver = 5 THEN b.exp ELSE conn[k].expiry
       e == IF conn[k].force THEN 0 ELSE e0
-      suppress == b.has /\ (b.code = 0 \/ conn[k].ver # 5)
+      suppress == b.has /\ ~void /\ (b.code = 0 \/ conn[k].ver # 5)
       keep == e > 0
       reg1 == Put(aux.reg, c, "")
       se1 == IF srv THEN aux.srvended \cup {addr} ELSE aux.srvended IN
